@@ -25,7 +25,8 @@ impl ExtendedPrivateKey {
 
         ExtendedPrivateKey {
             private_key: private_key.clone(),
-            public_key: PublicKey::from_private_key_impl(private_key),
+            // BIP32 serialises public keys in compressed form only, whatever form the private key is flagged with
+            public_key: PublicKey::from_private_key_impl(&private_key.compress_public_key(true)),
             chain_code: chain_code.to_vec(),
             depth: *depth,
             index: *index,
